@@ -508,15 +508,43 @@ def array_frames(rng, pname, ename):
     return out
 
 
+_OBJECT_ONLY = None
+
+
+def receive_reply_object_only():
+    """Read off the tree under test whether receive_reply hands the message to serde through a
+    deserializer that only accepts a JSON object (work/c04-array-fix.diff: `deserialize_any` of the
+    wrapper calls `deserialize_map`).  Returns (bool, what was matched)."""
+    global _OBJECT_ONLY
+    if _OBJECT_ONLY is None:
+        path = os.path.join(REPO, "zlink-core", "src", "connection", "read_connection.rs")
+        src = open(path).read()
+        m = re.search(r"fn receive_reply\b.*?\n    }\n", src, re.S)
+        body = m.group(0) if m else ""
+        wrapped = re.search(r"read_message::<\s*(\w+)<\s*ReplyMsg<", body)
+        if not m:
+            _OBJECT_ONLY = (False, "receive_reply not found in %s" % path)
+        elif wrapped and re.search(r"fn deserialize_any.*?\.deserialize_map\(", src, re.S):
+            _OBJECT_ONLY = (True, "receive_reply reads %s<ReplyMsg<..>>; a deserialize_any forwarding to deserialize_map is present"
+                            % wrapped.group(1))
+        else:
+            _OBJECT_ONLY = (False, "receive_reply reads ReplyMsg<..> directly (serde's sequence forms are accepted)")
+    return _OBJECT_ONLY
+
+
+def coq_bool(b):
+    return "true" if b else "false"
+
+
 def render_rcase(c, r):
     def enc(x):
         return None if x is None else jparse(x["enc"])
 
     def val(x):
         return None if x is None else x["v"]
-    return ("{| rc_e := %s; rc_p := %s; rc_frame := %s; rc_recv := %s; rc_call := %s; "
+    return ("{| rc_object_only := %s; rc_e := %s; rc_p := %s; rc_frame := %s; rc_recv := %s; rc_call := %s; "
             "rc_dvs := %s; rc_derr := %s; rc_drep := %s; rc_evs := %s; rc_eerr := %s; rc_erep := %s |}") % (
-        ETYPES[c["e"]][0], PTYPES[c["p"]], coq_jval(c["tree"]),
+        coq_bool(receive_reply_object_only()[0]), ETYPES[c["e"]][0], PTYPES[c["p"]], coq_jval(c["tree"]),
         coq_outcome(r["recv"]), coq_outcome(r["call"]),
         coq_opt(val(r["d_vs"]), coq_rval), coq_opt(val(r["d_err"]), coq_rval), coq_opt(val(r["d_rep"]), coq_rval),
         coq_opt(enc(r["d_vs"]), coq_jval), coq_opt(enc(r["d_err"]), coq_jval), coq_opt(enc(r["d_rep"]), coq_jval))
@@ -533,8 +561,8 @@ def render_ccase(c, r):
 
 def render_pcase(c, r):
     unit, en, pn = PROXY[c["meth"]]
-    return "{| pc_unit := %s; pc_e := %s; pc_p := %s; pc_frame := %s; pc_res := %s |}" % (
-        "true" if unit else "false", ETYPES[en][0], PTYPES[pn], coq_jval(c["tree"]), coq_pout(r["res"]))
+    return "{| pc_object_only := %s; pc_unit := %s; pc_e := %s; pc_p := %s; pc_frame := %s; pc_res := %s |}" % (
+        coq_bool(receive_reply_object_only()[0]), "true" if unit else "false", ETYPES[en][0], PTYPES[pn], coq_jval(c["tree"]), coq_pout(r["res"]))
 
 
 def harness_results(ck, cases):
